@@ -36,6 +36,7 @@ class XL:
             return P.const(1)
         name = 'exp{%s}' % p.canon()
         self.EXP[name] = p
+        deriv.FN[name] = ('exp', p)          # so that deriv.diff differentiates through it
         if self.is_ac_poly(p):
             self.AC.add(name)
         return P.atom(name)
@@ -70,6 +71,7 @@ class XL:
             return self.log(POLYATOM[n])
         name = 'log{%s}' % n
         self.LOG[name] = P.atom(n)
+        deriv.FN[name] = ('log', P.atom(n))
         if n in self.AC:
             self.AC.add(name)
         return P.atom(name)
@@ -105,6 +107,7 @@ class XL:
         key, q, mono, c = best
         name = 'log{%s}' % key
         self.LOG[name] = q
+        deriv.FN[name] = ('log', q)
         if self.is_ac_poly(q):
             self.AC.add(name)
         return self._log_mono(c, mono) + P.atom(name)
@@ -163,8 +166,39 @@ class XL:
         return P.atom('%s{%s}' % (fn, ','.join(self.norm(a).canon() if isinstance(a, P) else repr(a) for a in args)))
 
     def equal(self, p, q):
-        from .deriv import equal_rational
-        return equal_rational(self.norm(p), self.norm(q))
+        n1, d1 = rationalize(self.norm(p))
+        n2, d2 = rationalize(self.norm(q))
+        return self.norm(n1 * d2) == self.norm(n2 * d1)         # exp atoms are merged again after cross-multiplication
+
+    def diff(self, p, var):
+        """d p / d var for a term over exp / log atoms (not through axis sums)"""
+        p = self.norm(p)
+        for n in p.atoms():
+            self._no_sum(n, var)
+        return self.norm(deriv.diff(p, var))
+
+    def _no_sum(self, n, var, depth=0):
+        if depth > 20:
+            return
+        if n in self.SUM and var in self._deep_atoms(self.SUM[n]):
+            raise Unsupported('derivative through an axis sum')
+        for reg in (self.EXP, self.LOG):
+            if n in reg:
+                for m in reg[n].atoms():
+                    self._no_sum(m, var, depth + 1)
+        if n in POLYATOM:
+            for m in POLYATOM[n].atoms():
+                self._no_sum(m, var, depth + 1)
+
+    def _deep_atoms(self, p, depth=0):
+        out = set()
+        for n in as_p(p).atoms():
+            out.add(n)
+            if depth < 20:
+                for reg in (self.EXP, self.LOG, self.SUM, POLYATOM):
+                    if n in reg:
+                        out |= self._deep_atoms(reg[n], depth + 1)
+        return out
 
     # ---------------------------------------------------------------- hooks for the partial evaluator
     def hooks(self, axis_names=('axis',), compare_false=True):
@@ -196,7 +230,7 @@ class XL:
 
         def compare_hook(pe, op, a, b):
             # elementwise comparisons of arrays with a clamp constant select a measure-zero region: the generic branch is evaluated
-            if isinstance(a, P) and isinstance(b, P) and isinstance(op, (ast.Eq,)) and compare_false:
+            if isinstance(a, P) and isinstance(b, (P, int, float)) and not isinstance(b, bool) and not a.is_const() and isinstance(op, (ast.Eq,)) and compare_false:
                 return False
             return NotImplemented
         return call_hook, compare_hook
